@@ -6,6 +6,7 @@ import (
 	"context"
 	"crypto/sha1"
 	"encoding/binary"
+	"errors"
 	"fmt"
 	"sort"
 	"sync"
@@ -547,3 +548,31 @@ func (s *SlowStorage) List(ctx context.Context, id uuid.UUID) (map[uint32]iscp.D
 }
 
 func (s *SlowStorage) Clear(ctx context.Context, id uuid.UUID) error { return s.In.Clear(ctx, id) }
+
+// FailingStorage wraps the in-memory sent storage; Store fails for the chosen sequence numbers (a persistent storage can
+// fail: disk full, I/O error).
+type FailingStorage struct {
+	In   iscp.VerifSentStorage
+	Fail func(seq uint32) bool
+}
+
+func NewFailingStorage(fail func(seq uint32) bool) *FailingStorage {
+	return &FailingStorage{In: iscp.VerifNewInmemSentStorage(), Fail: fail}
+}
+
+func (s *FailingStorage) Store(ctx context.Context, id uuid.UUID, seq uint32, d iscp.DataPointGroups) error {
+	if s.Fail(seq) {
+		return errors.New("uplib: injected sent-storage failure (Store)")
+	}
+	return s.In.Store(ctx, id, seq, d)
+}
+
+func (s *FailingStorage) Remove(ctx context.Context, id uuid.UUID, seq uint32) (iscp.DataPointGroups, error) {
+	return s.In.Remove(ctx, id, seq)
+}
+
+func (s *FailingStorage) List(ctx context.Context, id uuid.UUID) (map[uint32]iscp.DataPointGroups, error) {
+	return s.In.List(ctx, id)
+}
+
+func (s *FailingStorage) Clear(ctx context.Context, id uuid.UUID) error { return s.In.Clear(ctx, id) }
